@@ -55,7 +55,10 @@ Definition env_step (x : step) (en : env) : env :=
 Fixpoint judge_points (seg : list step) (en : env) : list (key * env) * env :=
   match seg with
   | [] => ([], en)
-  | Judge k :: r => let (l, en') := judge_points r en in ((k, en) :: l, en')
+  | Judge k :: r =>
+      (* a callback on a present key takes one clock unit (Model.tick1) *)
+      let en1 := match lookup k (fst en) with Some _ => (fst en, snd en + 1) | None => en end in
+      let (l, en') := judge_points r en1 in ((k, en) :: l, en')
   | x :: r => judge_points r (env_step x en)
   end.
 
